@@ -45,7 +45,7 @@ func (Engine) Budget(tier, prop string) (int, int) {
 	if tier == "thorough" {
 		return 9000, 1500
 	}
-	return 900, 170
+	return 2000, 170
 }
 func (Engine) Describe() simcore.Description {
 	return simcore.Description{
